@@ -29,6 +29,7 @@ func init() {
 }
 
 func runC08(c *an.Ctx) {
+	r7AddActionAppends(c)
 	m := buildEvalModel(c, "R1")
 	if m == nil {
 		return
